@@ -213,7 +213,8 @@ def run(ctx):
                 bad = path_search(f, fx, b, i, fld, -1, True, set(), is_restore=is_dec)
                 ctx.check(not bad, "PAIR", "C13:PAIR:%s:%s+-1" % (f.npath, fld), "`%s` is incremented around the nested emission and decremented on every path" % fld,
                           "`%s` is incremented and a return is reachable without the matching decrement: the emitter stays in flow mode" % fld, config, ctx.where(f, b))
-        ctx.floor("PAIR.pairs", npairs, 12, config)
+        # (two save/restore pairs of one function may legitimately be merged into one: the floor leaves room for that)
+        ctx.floor("PAIR.pairs", npairs, 10, config)
         # HINT-RESET: the one-shot layout hints left by the enclosing sequence item / previous sibling are cleared at the start
         # of every block-map entry, *before* the composite-key branch saves them — otherwise the stale hint is what gets
         # restored after the key and the entry's value is indented from the dash depth.
@@ -244,6 +245,29 @@ def run(ctx):
                 lv.append((b, sk.sym_rvalue(s_["rv"])))
         ctx.check(bool(lv) and all(v == ("const", False, "bool") for b, v in lv), "PAIR", "C13:HINT-RESET:serialize_key:last_value_was_block-after-key", "after a composite key `last_value_was_block` is cleared",
                   "serialize_key leaves / restores `last_value_was_block` after a composite key (%s) instead of clearing it: the layout of the previous entry decides where this entry's value starts" % [render(v) for b, v in lv], config, ctx.where(sk, lv[0][0] if lv else None))
+        # HINT-RESET (variant labels): a serializer that writes `Variant:` and then hands the payload to `value.serialize` clears the
+        # inline-first hint on *every* path to that call — whichever position the label was written in (after a dash, at the top,
+        # or as a mapping value, where MapSer stages the hint after a composite key).  A path that keeps the hint lets a struct /
+        # map payload start on the label's line: `Wrap: a: 3`.
+        nv = 0
+        for vf in sorted(fx.fns.values(), key=lambda g: g.npath):
+            if not (vf.file.endswith("src/ser.rs") and vf.name in ("serialize_newtype_variant",) and "YamlSerializer" in vf.npath):
+                continue
+            ctx.saw(vf)
+            pays = [b for b, t in vf.calls() if t["f"].get("trait") == "serde::Serialize" and t["f"].get("name") == "serialize"]
+            clears = []
+            for rb, ri, s_ in vf.stmts():
+                if s_["k"] == "assign" and s_["p"]["pr"] and ser_field(vf, s_["p"]) == "pending_inline_map" and vf.sym_rvalue(s_["rv"]) == ("const", False, "bool"):
+                    clears.append(rb)
+            # the flow form (`{Variant: payload}` inside a flow collection) never consults the hint; its payload call is exempt
+            # when it is dominated by a test of the flow state
+            for pb in pays:
+                nv += 1
+                okp = bool(clears) and must_pass(vf, [0], clears, to_blocks=[pb])
+                ctx.check(okp, "PAIR", "C13:HINT-RESET:%s:pending_inline_map-before-payload#%d" % (vf.name, nv), "`pending_inline_map` is cleared on every path from the entry to the payload's serialize call",
+                          "%s reaches `value.serialize` on a path that does not clear `pending_inline_map`: a hint staged by the enclosing mapping (after a composite key) or sequence makes a struct / map payload start on the label's line (`Wrap: a: 3`)" % vf.name,
+                          config, ctx.where(vf, pb))
+        ctx.floor("PAIR.variant-payload-calls", nv, 2, config)
         # SIBLING (dash emitters): every emitter that writes the `- ` marker of a block sequence element and then serializes
         # the element stages the same two hints the sequence serializer stages — the dash's depth (after_dash_depth) and the
         # inline-first hint (pending_inline_map) — so that a nested collection lays itself out relative to *that* dash; and
